@@ -1,56 +1,59 @@
 ------------------------------- MODULE MC_Cut -------------------------------
 (* Model check of the implementation-shaped cut machine against the envelope, over EVERY piece
    sequence of length <= MaxLen over the class representatives MCAlpha (a shebang only first).
-   One action per branch of ParseTemplateSource's loop body.  Both readings of the end-of-file
-   trigger (`tok.pos.End == lastIndex`: any token, as written / text tokens only) are explored;
-   which one IS the code is decided by trace validation (Trace_Cut, drift counters).
+   One action per branch of ParseTemplateSource's loop body.  Two transcriptions of the line
+   block are explored (Cut!Variants: "head" as written, "fix" the proposed repair); which one IS
+   the code under test is decided by trace validation (Trace_Cut, drift counters).
    Also exports the replay cases: every balanced sequence over GenAlpha up to GenLen. *)
 EXTENDS Cut, TLC, Json, SequencesExt
 CONSTANTS MaxLen, MCAlpha, GenLen, GenAlpha
 
 VARIABLES names,    \* the template: sequence of catalogue names
           phase,    \* "gen" -> "parse" -> "done"
-          eofAny,   \* reading of the end-of-file trigger explored in this run of the parser
+          variant,  \* which transcription of the line block this run of the parser follows (Cut!Variants)
           toks,     \* lexer output
           ti,       \* index of the token the parser is looking at
           st        \* the parser's cut state (Cut!PS0)
-vars == <<names, phase, eofAny, toks, ti, st>>
+vars == <<names, phase, variant, toks, ti, st>>
 
 MCFmt == "txt"
-Init == names = <<>> /\ phase = "gen" /\ eofAny = FALSE /\ toks = <<>> /\ ti = 0 /\ st = PS0(0)
+Init == names = <<>> /\ phase = "gen" /\ variant = "head" /\ toks = <<>> /\ ti = 0 /\ st = PS0(0)
 
 Gen == /\ phase = "gen" /\ Len(names) < MaxLen
        /\ \E n \in MCAlpha : (n = "shebang" => names = <<>>) /\ names' = Append(names, n)
-       /\ UNCHANGED <<phase, eofAny, toks, ti, st>>
+       /\ UNCHANGED <<phase, variant, toks, ti, st>>
 Start == /\ phase = "gen" /\ LET ps == Pieces(names, MCFmt) IN Defined(ps, MCFmt)
-         /\ \E b \in BOOLEAN : eofAny' = b
+         /\ \E v \in Variants : variant' = v
          /\ LET tk == Lex(Pieces(names, MCFmt)) IN toks' = tk /\ st' = PS0(Len(tk))
          /\ ti' = 1 /\ phase' = "parse"
          /\ UNCHANGED names
 
 Parsing == phase = "parse" /\ ti <= Len(toks)
-Advance(s2) == st' = Count(s2, toks[ti]) /\ ti' = ti + 1 /\ UNCHANGED <<names, phase, eofAny, toks>>
-\* line < tok.lin, the finished line had exactly one cuttable token: cutSpaces(firstText, text)
-NewLineCut     == Parsing /\ st.line < toks[ti].lin /\ WillCut(st) /\ Advance(LineBlock(st, toks, ti, TRUE))
-NewLineKeep    == Parsing /\ st.line < toks[ti].lin /\ ~WillCut(st) /\ Advance(LineBlock(st, toks, ti, FALSE))
+Advance(s2) == st' = Count(s2, toks[ti]) /\ ti' = ti + 1 /\ UNCHANGED <<names, phase, variant, toks>>
+Cutting == WillCut(st, toks[ti], variant)
+\* line < tok.lin: the token closes the line; cutSpaces(firstText, text) when the line had one cuttable token
+NewLineCut     == Parsing /\ st.line < toks[ti].lin /\ Cutting /\ Advance(LineBlock(st, toks, ti, TRUE, variant))
+NewLineKeep    == Parsing /\ st.line < toks[ti].lin /\ ~Cutting /\ Advance(LineBlock(st, toks, ti, FALSE, variant))
 \* same line, but the token ends the file
-EofCut         == Parsing /\ ~(st.line < toks[ti].lin) /\ EndsFile(toks, ti, eofAny) /\ WillCut(st)
-                  /\ Advance(LineBlock(st, toks, ti, TRUE))
-EofKeep        == Parsing /\ ~(st.line < toks[ti].lin) /\ EndsFile(toks, ti, eofAny) /\ ~WillCut(st)
-                  /\ Advance(LineBlock(st, toks, ti, FALSE))
-SameLine       == Parsing /\ ~NewLine(st, toks, ti, eofAny) /\ Advance(st)
-Finish == phase = "parse" /\ ti > Len(toks) /\ phase' = "done" /\ UNCHANGED <<names, eofAny, toks, ti, st>>
+EofCut         == Parsing /\ ~(st.line < toks[ti].lin) /\ EndsFile(toks, ti) /\ Cutting
+                  /\ Advance(LineBlock(st, toks, ti, TRUE, variant))
+EofKeep        == Parsing /\ ~(st.line < toks[ti].lin) /\ EndsFile(toks, ti) /\ ~Cutting
+                  /\ Advance(LineBlock(st, toks, ti, FALSE, variant))
+SameLine       == Parsing /\ ~NewLine(st, toks, ti) /\ Advance(st)
+Finish == phase = "parse" /\ ti > Len(toks) /\ phase' = "done" /\ UNCHANGED <<names, variant, toks, ti, st>>
 Next == Gen \/ Start \/ NewLineCut \/ NewLineKeep \/ EofCut \/ EofKeep \/ SameLine \/ Finish
 
 Out == EmitFrom(toks, st.cuts, 1)
-\* design-level result, one invariant per reading of the trigger
+\* design-level result, one pair of invariants per transcription
 InEnv == LET ps == Pieces(names, MCFmt) o == Out IN InEnvelope(ps, o)
-EnvelopeAsWritten == (phase = "done" /\ eofAny)  => InEnv
-EnvelopeTextOnly  == (phase = "done" /\ ~eofAny) => InEnv
-\* the emitter slices Text[Left : len-Right]: the cuts never overlap
-SliceInRange == phase = "done" => CutsInRange(toks, st.cuts)
+EnvelopeHead == (phase = "done" /\ variant = "head") => InEnv
+EnvelopeFix  == (phase = "done" /\ variant = "fix")  => InEnv
+\* the emitter slices Text[Left : len-Right]: the cuts must never overlap (else the build panics)
+SliceHead == (phase = "done" /\ variant = "head") => CutsInRange(toks, st.cuts)
+SliceFix  == (phase = "done" /\ variant = "fix")  => CutsInRange(toks, st.cuts)
 \* the action-wise machine and the functional form used by Trace_Cut are the same machine
-SameAsFunctional == phase = "done" => LET ps == Pieces(names, MCFmt) IN Out = ModelOut(ps, eofAny)
+SameAsFunctional == phase = "done" => LET ps == Pieces(names, MCFmt) IN
+                                      CutsInRange(toks, st.cuts) => Out = ModelOut(ps, variant)
 
 (* ---- case export ---- *)
 \* (names only, filtered by the cheap structural conditions - a shebang only first, if/end balanced;
